@@ -138,7 +138,7 @@ func init() {
 
 	core.Register(&core.Check{
 		ID:   "C16",
-		Rule: "complete enumeration: every name of (FHIRPath N1 list U repo base+experimental tables U near-miss spellings) x argument count 0..4 x {default, WithExperimentalFuncs} x {fhirpath.Compile, patch.Compile}; accepted calls are evaluated with specification-typed arguments and again with the empty collection as receiver and in each argument position (no arity complaint); binding of every table key is read with runtime.FuncForPC; a case is non-trivial when its (name, arity, config, compiler, outcome) is distinct",
+		Rule: "complete enumeration: every name of (FHIRPath N1 list U repo base+experimental tables U near-miss spellings) x argument count 0..4 x {default, WithExperimentalFuncs} x {fhirpath.Compile, patch.Compile}; every call is also compiled with each argument replaced by a nested call that takes arguments (same acceptance, same result); accepted calls are evaluated with specification-typed arguments and again with the empty collection as receiver and in each argument position (no arity complaint); a not-implemented function must fail explicitly also as operand of every operator kind, as receiver, argument and criterion (16 contexts); binding of every table key is read with runtime.FuncForPC; a case is non-trivial when its (name, arity, config, compiler, outcome) is distinct",
 		Assumptions: []string{"the N1 signature table in checks/c16.go was transcribed from the specification", "documented extensions: extension() (FHIR R4), join() (experimental)"},
 		Subs: func(tier string) []core.Sub {
 			ns := names()
@@ -194,6 +194,36 @@ func init() {
 							if !inTable && accepted {
 								r.Fail("accepted-unknown-name|"+name, core.W{"src": src})
 							}
+							// acceptance depends on the argument COUNT only: the same call with one argument replaced by a
+							// nested call that itself takes arguments (iif(true, a, a) = a) is accepted exactly when the plain call is
+							for pos := 0; pos < n; pos++ {
+								args2 := fillArgs(sig, n)
+								args2[pos] = "iif(true, " + args2[pos] + ", " + args2[pos] + ")"
+								src2 := callSrc(sig.recv, name, args2)
+								res2 := lib.Compile(src2, c.copts()...)
+								r.Eval()
+								r.State(fmt.Sprintf("nested-arg|%d|arity=%d", pos, n))
+								r.Nontrivial(src2, c.name, res2.Class())
+								if res2.Panic != nil {
+									r.Fail("nested-argument|"+name+"|"+res2.Panic.Key(), core.W{"src": src2})
+									continue
+								}
+								acc2 := res2.CompileErr == nil
+								if acc2 != accepted {
+									r.Fail(fmt.Sprintf("nested-argument|acceptance-differs-from-plain-call|%s|arity=%d|plain=%v", name, n, accepted), core.W{"plain": src, "plain_outcome": res.String(), "nested": src2, "nested_outcome": res2.String(), "config": c.name})
+									continue
+								}
+								if accepted && implemented {
+									e1 := lib.EvalOpts(res, []fhir.Resource{lib.Patient()}, lib.EnvOpts(nil)...)
+									e2 := lib.EvalOpts(res2, []fhir.Resource{lib.Patient()}, lib.EnvOpts(nil)...)
+									r.Eval()
+									if e1.Panic == nil && e2.Panic == nil && (e1.Err == nil) == (e2.Err == nil) && e1.Err == nil && e1.String() != e2.String() {
+										r.Fail(fmt.Sprintf("nested-argument|result-differs-from-plain-call|%s|arity=%d", name, n), core.W{"plain": src, "plain_result": core.Short(e1.String(), 200), "nested": src2, "nested_result": core.Short(e2.String(), 200)})
+									} else if (e1.Err == nil) != (e2.Err == nil) {
+										r.Fail(fmt.Sprintf("nested-argument|error-differs-from-plain-call|%s|arity=%d", name, n), core.W{"plain": src, "plain_result": core.Short(e1.String(), 200), "nested": src2, "nested_result": core.Short(e2.String(), 200)})
+									}
+								}
+							}
 							if !accepted {
 								continue
 							}
@@ -238,6 +268,27 @@ func init() {
 							if inTable && !implemented {
 								if ev.Err == nil || !strings.Contains(ev.Err.Error(), "not yet implemented") && !strings.Contains(ev.Err.Error(), "not implemented") {
 									r.Fail("unimplemented-returns-result|"+name, core.W{"src": src, "got": ev.String()})
+								}
+								// ... wherever the call stands: as operand of every operator kind, as receiver, as argument, inside a criterion
+								for _, cx := range []struct{ name, pre, post string }{
+									{"concat-right", "'x' & ", ""}, {"concat-left", "", " & 'x'"}, {"plus", "1 + ", ""}, {"equals", "", " = 1"}, {"not-equals", "1 != ", ""}, {"less", "", " < 1"},
+									{"receiver-exists", "(", ").exists()"}, {"receiver-count", "(", ").count()"}, {"receiver-empty", "(", ").empty()"}, {"indexer", "(", ")[0]"}, {"is", "(", ") is Integer"},
+									{"select-arg", "'x'.select(", ")"}, {"where-arg", "Patient.where((", ").exists())"}, {"iif-branch", "iif(true, ", ", 1)"}, {"iif-criterion", "iif((", ").exists(), 1, 2)"}, {"polarity", "-(", ")"},
+								} {
+									src3 := cx.pre + src + cx.post
+									if cx.name == "where-arg" || cx.name == "select-arg" {
+										// inside an argument a leading type name is a member step: root the receiver at %context
+										src3 = cx.pre + strings.Replace(src, "Patient.", "%context.", 1) + cx.post
+									}
+									ev3 := lib.Run(src3, []fhir.Resource{lib.Patient()}, nil, c.copts()...)
+									r.Eval()
+									r.State("unimplemented-in|" + cx.name)
+									r.Nontrivial(src3, c.name, ev3.Class())
+									if ev3.Panic != nil {
+										r.Fail("unimplemented-in-context|"+cx.name+"|"+ev3.Panic.Key(), core.W{"src": src3})
+									} else if ev3.CompileErr == nil && (ev3.Err == nil || !strings.Contains(ev3.Err.Error(), "not yet implemented") && !strings.Contains(ev3.Err.Error(), "not implemented")) {
+										r.Fail("unimplemented-returns-result|in="+cx.name+"|"+name, core.W{"src": src3, "got": ev3.String()})
+									}
 								}
 							}
 						}
